@@ -73,6 +73,18 @@ class SymDT:
             cases.append(z3.And([x == y for x, y in zip(a, b)]))
         return z3.Or(cases)
 
+    def __eq__(self, o):
+        if not isinstance(o, SymDT):
+            return False
+        return SBool(z3.And([lift(self.f[k]) == lift(o.f[k]) for k in FIELDS]))
+
+    def __ne__(self, o):
+        if not isinstance(o, SymDT):
+            return True
+        return SBool(z3.Not(z3.And([lift(self.f[k]) == lift(o.f[k]) for k in FIELDS])))
+
+    __hash__ = object.__hash__          # a key by identity (values are symbolic)
+
     def __lt__(self, o): return SBool(self._cmp_expr(o, True))
     def __le__(self, o): return SBool(self._cmp_expr(o, False))
     def __gt__(self, o): return SBool(o._cmp_expr(self, True)) if isinstance(o, SymDT) else self._cmp_expr(o, True)
@@ -1053,6 +1065,72 @@ def job_composite_latest(tier, seed):
                 m = s.model()
                 cands.append({"call": "replay_composite_latest(%r)" % ([_concrete_text(m, t.chars) for t in ts],),
                               "desc": "composite get() does not return the greatest instant"})
+    except Unsupported as e:
+        return _result(eng, I, bad, cands, samples, 0, asserting, t0, inconclusive="translator does not cover: %s" % e)
+    return _result(eng, I, bad, _dedupe(cands), samples, 0, asserting, t0)
+
+
+# ---------------------------------------------------------------- C12: timestamp filters on dict-kept objects compare instants
+FOPS = ["=", "!=", ">", "<", ">=", "<="]
+
+
+def replay_filter_texts(prop_text, op, filter_text):
+    """real Filter on a dict-kept object: the outcome is the comparison of the two instants"""
+    from stix2.datastore.filters import Filter, apply_common_filters
+    a, b = utils.parse_into_datetime(prop_text), utils.parse_into_datetime(filter_text)
+    want = {"=": a == b, "!=": a != b, ">": a > b, "<": a < b, ">=": a >= b, "<=": a <= b}[op]
+    got = len(list(apply_common_filters([{"type": "x-t", "id": "x-t--1", "modified": prop_text}], [Filter("modified", op, filter_text)]))) == 1
+    return got == want
+
+
+def job_filter_timestamp_texts(tier, seed):
+    """C12.ts: Filter._check_property on a property value that is timestamp TEXT (objects of unregistered types are kept as dictionaries)
+    against a filter value that is timestamp text: for each of the six order operators the outcome equals the comparison of the two
+    instants -- every pair of canonical texts with 0..6 fraction digits (symbolic fields and digits)."""
+    from stix2.datastore import filters as FL
+    t0 = time.time()
+    is_ts_match = lambda fn: getattr(fn, "__self__", None) is FL._TIMESTAMP_RE and getattr(fn, "__name__", "") == "match"   # noqa: E731
+    stubs = {"__callables__": STUBS["__callables__"] + [(is_ts_match, lambda s: True)]}
+    I = Interp(stubs)
+    eng = Engine()
+    bad, cands, samples, asserting = 0, [], [], 0
+    fracs = [(6, 6), (3, 6), (None, 3), (1, 3)] if tier == "quick" else [(x, y) for x in (None, 1, 3, 4, 6) for y in (None, 1, 3, 4, 6)]
+    try:
+        for op in FOPS:
+            flt_cls = FL.Filter
+            for nfa, nfb in fracs:
+                def body(eng):
+                    fa, fb = fresh(eng, "a"), fresh(eng, "b")
+                    ta, qa = _text(eng, fa, nfa, "a")
+                    tb, qb = _text(eng, fb, nfb, "b")
+                    flt = flt_cls("modified", op, "2020-01-01T00:00:00Z")
+                    flt = flt._replace(value=tb)
+                    out = I.call_function(FL.Filter._check_property, [flt, ta], {})
+                    return fa, fb, qa, qb, ta, tb, bool(out)
+                for pc, (kind, val) in eng.explore(body):
+                    if kind != "return":
+                        if isinstance(val, ValueError):
+                            continue
+                        return _result(eng, I, bad, cands, samples, 0, asserting, t0, inconclusive="raised %r" % (val,))
+                    fa, fb, qa, qb, ta, tb, got = val
+                    asserting += 1
+                    ia, ib = _instant_expr(fa, qa), _instant_expr(fb, qb)
+                    want = {"=": ia == ib, "!=": ia != ib, ">": ia > ib, "<": ia < ib, ">=": ia >= ib, "<=": ia <= ib}[op]
+                    s = z3.Solver()
+                    s.add(*pc)
+                    s.add(want != z3.BoolVal(got))
+                    eng.queries += 1
+                    r = xcheck.check(s)
+                    if r == "unsat":
+                        if len(samples) < 3:
+                            samples.append({"operator": op, "fraction_digits": [nfa, nfb], "outcome": got, "query": "pc and outcome != (instant op instant)", "result": "unsat"})
+                        continue
+                    if r != "sat":
+                        return _result(eng, I, bad, cands, samples, 0, asserting, t0, inconclusive="solver %s" % r)
+                    bad += 1
+                    m = s.model()
+                    cands.append({"call": "replay_filter_texts(%r, %r, %r)" % (_concrete_text(m, ta.chars), op, _concrete_text(m, tb.chars)),
+                                  "desc": "filter outcome differs from the comparison of the instants"})
     except Unsupported as e:
         return _result(eng, I, bad, cands, samples, 0, asserting, t0, inconclusive="translator does not cover: %s" % e)
     return _result(eng, I, bad, _dedupe(cands), samples, 0, asserting, t0)
